@@ -62,6 +62,7 @@ class Ctx:
         self.upreds = {}
         self.no_branch_record = False
         self.frozen_iterms = 0
+        self.dual = False
         self.aux = []       # (name, term): results of assumed callees etc. (for counter-model replay)
 
     # -- symbols -----------------------------------------------------------------------------
